@@ -20,6 +20,7 @@ import (
 	"time"
 
 	metav1 "k8s.io/apimachinery/pkg/apis/meta/v1"
+	"k8s.io/client-go/util/workqueue"
 
 	proxyv1alpha1 "github.com/kubewharf/kubegateway/pkg/apis/proxy/v1alpha1"
 	"github.com/kubewharf/kubegateway/pkg/client/informers"
@@ -38,6 +39,7 @@ import (
 type RunScript struct {
 	Versions []WObj `json:"versions"`
 	Hold     int    `json:"hold"` // index (>= 1) of the version whose handler is held back once after lister.Get; -1: none
+	Cure     *CureScript `json:"cure,omitempty"` // retry-budget scenario (cure.go) instead of a burst
 }
 
 type holdLister struct {
@@ -77,7 +79,10 @@ type runGateway struct {
 	seen     map[*clusters.ClusterInfo]bool
 }
 
-func startRunGateway(global string) *runGateway {
+func startRunGateway(global string) *runGateway { return startRunGatewayWith(global, nil, nil) }
+
+// startRunGatewayWith: optionally the work queue is wrapped and every handler answer asking for a requeue is reported.
+func startRunGatewayWith(global string, wrapQueue func(workqueue.RateLimitingInterface) workqueue.RateLimitingInterface, askedRequeue func(item interface{})) *runGateway {
 	g := &runGateway{client: fake.NewSimpleClientset(), stop: make(chan struct{}), seen: map[*clusters.ClusterInfo]bool{}}
 	factory := informers.NewSharedInformerFactory(g.client, 0)
 	if global == "" {
@@ -97,9 +102,16 @@ func startRunGateway(global string) *runGateway {
 					res, err = syncqueue.Result{}, nil
 				}
 			}()
-			return h(obj)
+			res, err = h(obj)
+			if askedRequeue != nil && err == nil && (res.Requeue || res.RequeueAfter > 0) {
+				askedRequeue(obj)
+			}
+			return res, err
 		}
 	})
+	if wrapQueue != nil {
+		g.ctl.VerifC11WrapQueue(wrapQueue)
+	}
 	factory.Start(g.stop)
 	go g.ctl.Run(g.stop)
 	return g
@@ -135,6 +147,9 @@ func waitFor(cond func() bool, timeout time.Duration) bool {
 }
 
 func runLoop(c *rig.Ctx, cs Case) verdict {
+	if cs.Run != nil && cs.Run.Cure != nil {
+		return runCure(c, cs)
+	}
 	if cs.Run == nil || len(cs.Run.Versions) == 0 {
 		return pass
 	}
